@@ -160,7 +160,10 @@ func (g *G) DerivedEvent(p *board.Position, turn board.Color) {
 	}
 	// "is this square attacked / defended by pieces of these kinds": a few kind lists, with and without pawns
 	lists := [][]board.Piece{{board.King}, {board.Pawn}, {board.Queen, board.Rook, board.Bishop}, {board.King, board.Queen},
-		{board.Queen, board.Rook, board.Knight, board.Bishop}, {board.Knight, board.Pawn}, {board.King, board.Queen, board.Rook, board.Knight, board.Bishop, board.Pawn}}
+		{board.Queen, board.Rook, board.Knight, board.Bishop}, {board.Knight, board.Pawn}, {board.King, board.Queen, board.Rook, board.Knight, board.Bishop, board.Pawn},
+		// the order of a list means nothing: the pawn first, in the middle, a kind named twice
+		{board.Pawn, board.Rook}, {board.Pawn, board.King, board.Queen, board.Rook, board.Knight, board.Bishop}, {board.Bishop, board.Pawn, board.Knight},
+		{board.Rook, board.Queen, board.Rook}, {board.Pawn, board.Pawn, board.Queen}}
 	var by []M
 	for _, l := range lists {
 		kinds := []int{}
